@@ -586,6 +586,74 @@ pub fn run(ctx: &'static Ctx) {
             });
         });
     }
+    // G8: a stream of one character width after each variant prefix, shifted by 0..=7 ASCII bytes:
+    // every text field is then clamped at its capacity with the cut at every position inside a
+    // character of that width
+    {
+        let chars = ["\u{e9}", "\u{20ac}", "\u{1f600}", "\u{10ffff}"];
+        let totals = [300usize, 700, 2000];
+        let per = (chars.len() * 8 * totals.len() * 2) as u64;
+        sweep(ctx, "G8: a shifted stream of one character width after each variant prefix", prefixes.len() as u64 * per, "26 prefixes x {é, €, 😀, U+10FFFF} repeated x shift 0..=7 x total length {300, 700, 2000} x tail {00, FF}", move |idx, l| {
+            let (gen, p) = &pr[(idx / per) as usize];
+            let mut r = idx % per;
+            let tail = if r % 2 == 0 { 0x00u8 } else { 0xff };
+            r /= 2;
+            let total = totals[(r % 3) as usize];
+            r /= 3;
+            let shift = (r % 8) as usize;
+            let ch = chars[(r / 8) as usize];
+            let mut input = p.clone();
+            input.extend(std::iter::repeat(b'a').take(shift));
+            while input.len() < total {
+                input.extend_from_slice(ch.as_bytes());
+            }
+            input.extend(std::iter::repeat(tail).take(16));
+            let (v, class) = check(*gen, &input);
+            l.bump(class);
+            if class != "ran out of bytes" {
+                l.nontrivial += 1;
+            }
+            if !v.ok {
+                l.fail(ctx, idx, v, || case(*gen, &input, "G8"));
+            }
+        });
+    }
+    // G9: one multi-byte character at every position of an ASCII input (ASCII bytes serve both as
+    // huge length words, clamped to the capacity, and as text): wherever a bounded text field
+    // begins, some position puts the character across the field's end at every possible split
+    {
+        let chars = ["\u{e9}", "\u{20ac}", "\u{1f600}", "\u{10ffff}"];
+        let bases = [b'A', b'B'];
+        let span: u64 = if ctx.thorough() { 3600 } else { 1400 };
+        let per = chars.len() as u64 * bases.len() as u64 * span;
+        sweep(ctx, "G9: one multi-byte character at every position of an ASCII input after each variant prefix", prefixes.len() as u64 * per, "26 prefixes x base byte {41 (optional members present), 42 (absent)} x {é, €, 😀, U+10FFFF} at every offset below 1400 (thorough: 3600) of a 4096-byte input, 16 zero bytes at the end", move |idx, l| {
+            let (gen, p) = &pr[(idx / per) as usize];
+            let mut r = idx % per;
+            let pos = (r % span) as usize;
+            r /= span;
+            let base = bases[(r % 2) as usize];
+            let ch = chars[(r / 2) as usize].as_bytes();
+            thread_local! { static BUF: std::cell::RefCell<Vec<u8>> = std::cell::RefCell::new(Vec::with_capacity(4200)); }
+            BUF.with(|buf| {
+                let mut input = buf.borrow_mut();
+                input.clear();
+                input.extend_from_slice(p);
+                let start = input.len();
+                input.resize(start + 4096, base);
+                input[start + pos..start + pos + ch.len()].copy_from_slice(ch);
+                input.extend_from_slice(&[0u8; 16]);
+                let (v, class) = check(*gen, &input);
+                l.bump(class);
+                if class != "ran out of bytes" {
+                    l.nontrivial += 1;
+                }
+                if !v.ok {
+                    let input = input.clone();
+                    l.fail(ctx, idx, v, || case(*gen, &input, "G9"));
+                }
+            });
+        });
+    }
     // G4: UTF-8 pattern words repeated to lengths around every capacity
     let letters: [&[u8]; 8] = [b"a", "é".as_bytes(), "€".as_bytes(), "😀".as_bytes(), &[0x80], &[0xc3], &[0xe2, 0x82], &[0xf0, 0x9f, 0x98]];
     let g4words: u64 = (1..=4u32).map(|k| 8u64.pow(k)).sum();
